@@ -169,7 +169,7 @@ def main(ctx: Ctx) -> int:
     cov["design_variants_caught"] = 1
     rng = random.Random(ctx.seed)
     traces = []
-    n = 25 if ctx.quick else 400
+    n = 25 if ctx.quick else 3000
     for fmt in ("kida", "umist", "leeds", "uclchem", "krome", "naunet"):
         for k in range(n):
             text, lines, exempt = gen_file(rng, fmt)
